@@ -107,10 +107,21 @@ def imem_addr(st: RefState, ref: IMemRef) -> int:
     return ref.offset(peek)
 
 
+# Large-count mode (used only for the "I > 256" parts of C03/C04): a counted internal-memory range longer than the 256-byte
+# space necessarily leaves it; which internal bytes are then touched is not documented, so the walk is folded back
+# (any folding would do) and WRAPPED tells the caller to judge only what stays documented: the external side of the
+# transfer, the final count and the pointer side effects.
+LENIENT = [False]
+WRAPPED = [False]
+
+
 def iwalk(base: int, k: int) -> int:
     """k-th byte of a counted walk through internal memory; leaving the 256-byte space is not documented."""
     off = base - IMEM_BASE + k
     if not 0 <= off <= 0xFF:
+        if LENIENT[0]:
+            WRAPPED[0] = True
+            return IMEM_BASE + (off & 0xFF)
         raise Skip("counted internal-memory range crosses the 256-byte boundary")
     return IMEM_BASE + off
 
